@@ -398,8 +398,9 @@ class DiscreteStridedIntervalSet(StridedInterval):
         :return:
         """
 
+    @convert_operand_to_si
     def __rsub__(self, o):
-        return self.__sub__(o)
+        return self._reflected(o, "__sub__")
 
     @convert_operand_to_si
     @apply_on_each_si
@@ -414,8 +415,9 @@ class DiscreteStridedIntervalSet(StridedInterval):
     def __truediv__(self, o):
         return self.__floordiv__(o)  # floats not welcome
 
+    @convert_operand_to_si
     def __rfloordiv__(self, o):
-        return self.__floordiv__(o)
+        return self._reflected(o, "__floordiv__")
 
     def __rtruediv__(self, o):
         return self.__rfloordiv__(o)
@@ -430,8 +432,20 @@ class DiscreteStridedIntervalSet(StridedInterval):
         :return:
         """
 
+    @convert_operand_to_si
     def __rmod__(self, o):
-        return self.__mod__(o)
+        return self._reflected(o, "__mod__")
+
+    def _reflected(self, o, op_name):
+        """
+        Apply a non-commutative operation with `o` on the left and each member on the right.
+        """
+        new_si_set = set()
+        for si in self._si_set:
+            new_si_set.add(getattr(o, op_name)(si))
+
+        r = DiscreteStridedIntervalSet(bits=self._bits, si_set=new_si_set)
+        return r.normalize()
 
     # Evaluation
 
